@@ -144,10 +144,13 @@ func pkgOf(op string) string { return op[:strings.IndexByte(op, '.')] }
 // dropOwn: a caller stops looking at a buffer once it calls the same package again itself - the
 // buffer-returning APIs document that the caller's own next call may reuse the buffer, so from then on
 // a change could not be attributed to ANOTHER caller's call.
-func dropOwn(held []*heldBuf, g int, op string) []*heldBuf {
+func dropOwn(held []*heldBuf, g int, op string, log func(Event)) []*heldBuf {
 	out := held[:0:0]
 	for _, h := range held {
 		if h.g == g && h.op != "" && pkgOf(h.op) == pkgOf(op) {
+			if h.buf != nil {
+				log(Event{E: "drop", G: g, C: h.c})
+			}
 			continue
 		}
 		out = append(out, h)
@@ -197,7 +200,7 @@ func runSchedule(id int, sc schedCase, ref map[string]string) map[string]any {
 				cands := opsOfClass(cls)
 				op := cands[(id+g*7+c*3)%len(cands)]
 				arg := (g*5 + c + id) % (nArgs * 4)
-				held = dropOwn(held, g, op.Name)
+				held = dropOwn(held, g, op.Name, func(e Event) { evs = append(evs, e) })
 				res, buf := runOp(op, arg)
 				evs = append(evs, Event{E: "ret", G: g, C: c + 1, Op: op.Name, Cls: cls, Res: res,
 					Seq: ref[op.Name+"|"+strconv.Itoa(arg)], Ref: bufID(bufIDs, buf)})
@@ -327,7 +330,10 @@ func runFree(run, n, m int, seed int64, ref map[string]string, menu []*Op) map[s
 			for c := 1; c <= m; c++ {
 				op := menu[rng.Intn(len(menu))]
 				arg := rng.Intn(nArgs * 4)
-				mine = dropOwn(mine, g, op.Name)
+				mine = dropOwn(mine, g, op.Name, func(e Event) {
+					e.n = atomic.AddInt64(&seq, 1)
+					per[g] = append(per[g], e)
+				})
 				res, buf := runOp(op, arg)
 				per[g] = append(per[g], Event{E: "ret", G: g, C: c, Op: op.Name, Cls: op.Class, Res: res,
 					Seq: ref[op.Name+"|"+strconv.Itoa(arg)], Ref: bufID(bufIDs, buf), n: atomic.AddInt64(&seq, 1)})
@@ -335,6 +341,7 @@ func runFree(run, n, m int, seed int64, ref map[string]string, menu []*Op) map[s
 					mine = append(mine, &heldBuf{g: g, c: c, buf: buf, op: op.Name})
 					pinned = append(pinned, mine[len(mine)-1])
 					if len(mine) > 3 {
+						per[g] = append(per[g], Event{E: "drop", G: g, C: mine[0].c, n: atomic.AddInt64(&seq, 1)})
 						mine = mine[1:]
 					}
 				}
@@ -347,6 +354,9 @@ func runFree(run, n, m int, seed int64, ref map[string]string, menu []*Op) map[s
 						per[g] = append(per[g], Event{E: "look", G: g, C: h.c, Now: string(h.buf), n: atomic.AddInt64(&seq, 1)})
 					}
 				}
+			}
+			for _, h := range mine { // the goroutine ends: it holds nothing any more
+				per[g] = append(per[g], Event{E: "drop", G: g, C: h.c, n: atomic.AddInt64(&seq, 1)})
 			}
 			runtime.KeepAlive(pinned)
 		}(g)
